@@ -144,7 +144,7 @@ def fn_case(draw):
         args = draw(st.lists(st.one_of(arg_leaf, arg_tree), max_size=4))
         sites.append(args)
     shape = draw(st.sampled_from(['plus', 'array', 'nested', 'alone']))
-    return {'name': name, 'sites': sites, 'shape': shape, 'ret': draw(st.sampled_from(['int', 'int', 'text', 'list', 'none', 'float', 'bool', 'date', 'tuple', 'emptytext', 'zero', 'nested', 'bigint'])),
+    return {'name': name, 'sites': sites, 'shape': shape, 'ret': draw(st.sampled_from(['int', 'int', 'text', 'list', 'none', 'float', 'bool', 'date', 'tuple', 'emptytext', 'zero', 'nested', 'bigint', 'keyerror'])),
             'callable': draw(st.sampled_from(['function', 'function', 'function', 'empty-mapping', 'zero-length', 'bound-method'])), 'listeners': draw(st.sampled_from([0, 0, 0, 1, 2, 3, 16]))}
 
 
@@ -163,11 +163,13 @@ def check_function(case):
     import datetime as _dt
     rets = {'int': lambda k: 1000 + k, 'text': lambda k: 'ret%d' % k, 'list': lambda k: [k, 'r'], 'none': lambda k: None, 'float': lambda k: k + 0.25,
             'bool': lambda k: k % 2 == 0, 'date': lambda k: _dt.datetime(2020, 1, 1 + k, 6, 30), 'tuple': lambda k: (k, 'r'), 'emptytext': lambda k: '', 'zero': lambda k: 0,
-            'nested': lambda k: [[k, 1], [2, 3]], 'bigint': lambda k: 2 ** 70 + k}[case['ret']]
+            'nested': lambda k: [[k, 1], [2, 3]], 'bigint': lambda k: 2 ** 70 + k, 'keyerror': lambda k: None}[case['ret']]
 
     def recorder(*args):
         k = len(calls)
         calls.append(list(args))
+        if case['ret'] == 'keyerror':
+            raise KeyError('no row %d in the host table' % k)       # a lookup miss inside the host function: its failure, not a missing registration
         return rets(k)
     if case.get('callable', 'function') != 'function':
         # a host callable that is not a plain function: an instance with __call__ whose truth value is False (an empty mapping / a __len__ of 0), or a bound method
@@ -211,6 +213,11 @@ def check_function(case):
     passive_listeners(env.P, case.get('listeners', 0) & 19)
     r = env.parse(text)
     d = 'function %s registered; %s ' % (name, text)
+    if case['ret'] == 'keyerror':
+        # the registered function was called (once, at the first call site reached) and failed: the formula fails with #ERROR!; no built-in of that name answers instead, nor #NAME?
+        if r['error'] != '#ERROR!' or len(calls) != 1:
+            raise Violation(d + 'whose host function raises KeyError -> %r after %d calls of it; expected #ERROR! after exactly one call' % (r['error'] or r['result'], len(calls)), r['error'] or enc(r['result']), '#ERROR!')
+        return
     if r['error'] is not None:
         raise Violation(d + '-> error %s' % r['error'], r['error'], None)
     # expected call log
